@@ -422,12 +422,15 @@ package argmapper
 //@   loop 1 invariant forall(i, int, imp(0 <= i && i < idx1 && fncode(opts[i]) == litcode("argmapper.FuncOnce$1"), builder.funcOnce)) && imp(forall(i, int, imp(0 <= i && i < idx1, fncode(opts[i]) != litcode("argmapper.FuncOnce$1"))), !builder.funcOnce)
 
 // ---------------------------------------------------------------- func.go: argBuilder (defaults, then call options)
+// comb: the option list Call really applies: the defaults given at construction, then the call's own options
+//@ ghost comb(f *Func, opts []Arg, i int) Arg = ite(i < len(f.callOpts), f.callOpts[i], opts[i - len(f.callOpts)])
+//@ ghost combLen(f *Func, opts []Arg) int = len(f.callOpts) + len(opts)
 //@ func (*Func).argBuilder
-//@   ensures  [nil-option-is-an-error] forall(i, int, imp(0 <= i && i < len(old(opts)) && old(opts)[i] == nil, result0 == nil && result1 != nil)) && forall(i, int, imp(0 <= i && i < len(f.callOpts) && f.callOpts[i] == nil, result0 == nil && result1 != nil))
+//@   ensures  [nil-option-is-an-error] forall(i, int, imp(0 <= i && i < combLen(f, old(opts)) && comb(f, old(opts), i) == nil, result0 == nil && result1 != nil))
 //@   ensures  [builder] imp(result0 != nil, wfB(result0) && fresh(result0) && !result0.redefining)
-//@   ensures  [call-option-wins] imp(result0 != nil, forall(i, int, k, string, imp(0 <= i && i < len(old(opts)) && setsNamed(old(opts)[i], k) && forall(j, int, imp(i < j && j < len(old(opts)), !setsNamed(old(opts)[j], k))), has(result0.named, k) && result0.named[k] == namedVal(old(opts)[i]))))
-//@   ensures  [default-applies-otherwise] imp(result0 != nil, forall(i, int, k, string, imp(0 <= i && i < len(f.callOpts) && setsNamed(f.callOpts[i], k) && forall(j, int, imp(i < j && j < len(f.callOpts), !setsNamed(f.callOpts[j], k))) && forall(j, int, imp(0 <= j && j < len(old(opts)), !setsNamed(old(opts)[j], k))), has(result0.named, k) && result0.named[k] == namedVal(f.callOpts[i]))))
-//@   ensures  [only-supplied-names] imp(result0 != nil, forall(k, string, imp(forall(j, int, imp(0 <= j && j < len(old(opts)), !setsNamed(old(opts)[j], k))) && forall(j, int, imp(0 <= j && j < len(f.callOpts), !setsNamed(f.callOpts[j], k))), !has(result0.named, k))))
-//@   ensures  [call-subtype-option-wins] imp(result0 != nil, forall(i, int, k, string, s, string, imp(0 <= i && i < len(old(opts)) && setsNamedSub(old(opts)[i], k, s) && forall(j, int, imp(i < j && j < len(old(opts)), !setsNamedSub(old(opts)[j], k, s))), has(result0.namedSub[k], s) && result0.namedSub[k][s] == namedSubVal(old(opts)[i]))))
+//@   ensures  [defaults-then-call-options-last-wins] imp(result0 != nil, forall(i, int, k, string, imp(0 <= i && i < combLen(f, old(opts)) && setsNamed(comb(f, old(opts), i), k) && forall(j, int, imp(i < j && j < combLen(f, old(opts)), !setsNamed(comb(f, old(opts), j), k))), has(result0.named, k) && result0.named[k] == namedVal(comb(f, old(opts), i)))))
+//@   ensures  [only-supplied-names] imp(result0 != nil, forall(k, string, imp(forall(j, int, imp(0 <= j && j < combLen(f, old(opts)), !setsNamed(comb(f, old(opts), j), k))), !has(result0.named, k))))
+//@   ensures  [defaults-then-call-options-last-wins-subtypes] imp(result0 != nil, forall(i, int, k, string, s, string, imp(0 <= i && i < combLen(f, old(opts)) && setsNamedSub(comb(f, old(opts), i), k, s) && forall(j, int, imp(i < j && j < combLen(f, old(opts)), !setsNamedSub(comb(f, old(opts), j), k, s))), has(result0.namedSub[k], s) && result0.namedSub[k][s] == namedSubVal(comb(f, old(opts), i)))))
+//@   after "copy(optsCopy[len(f.callOpts):], opts)" assert [copied-in-order] len(optsCopy) == combLen(f, opts) && forall(i, int, imp(0 <= i && i < len(optsCopy), optsCopy[i] == comb(f, opts, i)))
 //@   assigns  Func, argBuilder, NamedM, NamedSubM, TypedM, TypedSubM, []*Func, []ConverterGenFunc, ValueSet, Value, valueInternal, []*Value, map[string]*Value, map[reflect.Type]*Value, map[string]string, []string, []interface{}, reflect.StructField, []reflect.StructField, []Arg, rvstore, rvfresh
 //@   modifies nothing
